@@ -39,10 +39,11 @@ CHECKS = {
              "inherited), Inv_C03_Halts, plus the termination variant. TLC checks them on the mirror model for every "
              "program of <= 4/5 tokens x small limits, replays every terminal state on the real VM, and validates "
              "recorded executions of generated programs (loops, nested loops, self-jumps, jump tables, stack-growing "
-             "loops, fork bombs, read-mask-write loops) under L 1..12, F 1..60, G 150..30M event by event.",
-        note="The type-checker half (lifting/inference/unification halting) is exercised by the pipeline-level runs of "
-             "C01/C14 under a poll budget; here the VM half is decided. Trusted: TLC, the hooks (cross-checked against "
-             "the public-API observation of stored states).",
+             "loops, fork bombs, read-mask-write loops, spaghetti control flow, loops re-entered from elsewhere) under L 1..12, F 1..60, G 150..30M event by event.",
+        note="The half after execution (lifting, inference, unification finish) is decided by whole-analysis runs in a "
+             "child process under a poll budget and a time bound, judged by PipelineTrace.tla (Inv_C03_AnalysisHalts) on "
+             "crafted cyclic-type, cyclic-dataflow, control-flow and idiom programs. Trusted: TLC, the hooks (cross-checked "
+             "against the public-API observation of stored states).",
         technique="TLA+ scheduler model; TLC model checking of the mirror; replay of TLC behaviours on the VM; TLC trace "
                   "validation of hook-recorded executions",
         ref="DESIGN.md §4 C03"),
@@ -107,7 +108,9 @@ CHECKS = {
              "sets of <= 3/4 judgements over 3 variables and checks termination, Inv_C14_One, Inv_C14_Eq (declared "
              "equalities, transitively) and Inv_C14_Components (component equalities demanded inside clean classes of the "
              "full congruence closure). Every set is replayed on the real unifier (outcome must be the model's), and "
-             "random sets of up to 40 variables with packed spans and cyclic evidence are validated by UnifyTrace.tla.",
+             "random sets of up to 40 variables with packed spans, cyclic evidence (self-referential spans, cycles through several packed "
+             "encodings), deep chains of nested constructors are validated by UnifyTrace.tla; every variable of the state, including "
+             "those the unifier allocated, must be known to the resulting forest.",
         note="""Packed encodings are outside the model's alphabet: for judgement sets that contain them only the order-independent post-conditions (termination, one expression, declared equalities, determinism) are evaluated.""",
         technique="TLA+ unifier model (powerset construction over fold orders) checked by TLC; replay into the real "
                   "unifier; TLC trace validation of projected forests",
@@ -141,14 +144,15 @@ CHECKS = {
         category="model_checking",
         text="Idioms.tla specifies ground-truth contracts (variables of kind word / address-masked word / mapping of depth "
              "1-4 with address or word keys / dynamic array / packed word of 2-6 byte-aligned fields, at arbitrary slots, "
-             "read, written or both from separate dispatch branches) and Expected(v, layout): an entry at the right slot "
+             "read, written or both from separate dispatch branches; packed writes through SHL or MUL by 2^k; slots of every magnitude "
+             "incl. string-named ones) and Expected(v, layout): an entry at the right slot "
              "whose kind matches - mapping of exactly the right depth with 20-byte keys/values where masked, dynamic "
              "array, packed entries at the right bit offsets with the right widths. IdiomsGen (TLC) enumerates every "
              "single variable over the grid and pairs at distinct slots; the harness assembles each description, the real "
              "pipeline analyses it and LayoutTrace.tla evaluates Inv_C04_Expected; random contracts of 1-12 variables "
              "extend the enumeration.",
         note="Expected is deliberately weaker than type equality (kind, depth, offsets, widths, 20-byte-ness). One "
-             "genuine shortfall is a known finding (packed variables that are only ever written).",
+             "genuine shortfall is a known finding (fields of a packed variable that are only ever written, through a left shift).",
         technique="TLA+ generator model enumerated by TLC and replayed into the real pipeline; TLC trace validation of the layouts",
         ref="DESIGN.md §4 C04"),
     "C05": dict(
@@ -157,7 +161,8 @@ CHECKS = {
              "access the VM performed (constants in key terms closed under the documented derivations: folding, keccak of "
              "constant data incl. the proxy-string forms, pre-image of keccak(n) for n < 10000, +/- a constant); a program "
              "without storage accesses yields an empty layout. Evaluated by LayoutTrace.tla on every analysed program: "
-             "storage-free look-alike hashing, look-alike hashes used as values, idiom contracts, mutated real contracts.",
+             "storage-free look-alike hashing (computed and as pushed literals), look-alike hashes used as values, idiom contracts, "
+             "mutated real contracts.",
         note="The derivation closure is computed by the harness from ExecutionResult::all_values(). Known finding: a "
              "look-alike hash inside the VALUE operand of a store.",
         technique="TLA+ monitor specification; TLC trace validation of recorded key terms and layouts",
@@ -167,7 +172,8 @@ CHECKS = {
         text="SlotFlow.tla: Inv_C06_NoMissed - every literal-constant key of an executed SLOAD/SSTORE/unwritten read (other "
              "than keccak(n), n < 10000) on any explored path has an entry at exactly that 256-bit index when the analysis "
              "succeeds; checked by LayoutTrace.tla on programs with keys of every magnitude (small, >= 2^64, >= 2^128, "
-             "2^256-1, EIP-1967) read-only / write-only / mixed, behind forks and before errors, and on all other corpora.",
+             "2^256-1, EIP-1967) read-only / write-only / mixed, with values up to and just beyond the size limit, behind forks and "
+             "before errors, and on all other corpora.",
         note="Indices are compared as full 64-digit hex words.",
         technique="TLA+ monitor specification; TLC trace validation",
         ref="DESIGN.md §4 C06"),
@@ -176,7 +182,8 @@ CHECKS = {
         text="Two-run relational acceptor in LayoutTrace.tla: Inv_C11_Union (layout(A||B) = layout(A) union layout(B) for "
              "fragments with disjoint slot sets behind a dispatcher, both orders) and Inv_C11_Rename (an injective "
              "renumbering of the slot constants, incl. small -> > 2^128 and changed PUSH width, renumbers the entries and "
-             "changes no type or offset), on generated idiom fragments.",
+             "changes no type or offset; incl. renumberings onto slots congruent modulo 2^64 and onto string-named slots), on generated "
+             "idiom fragments under three control-flow shapes (dispatcher, chain of guards, straight-line code).",
         note="The specification contributes the fragment generator (Idioms) and the relational acceptor, not a model of "
              "inference; a hyperproperty over two or three runs.",
         technique="TLA+ relational acceptor over recorded layouts of composed / renumbered generated contracts",
@@ -187,7 +194,7 @@ CHECKS = {
              "Inv_C12_InSlot (offset < 256 and offset + width <= 256 when the width is known) evaluated by LayoutTrace.tla "
              "on every successful analysis of every corpus, in particular mask-and-shift programs with shift amounts and "
              "mask positions from {0, 8, 248, 255, 256, 257, 300, 2^32, 2^64-1, 2^64, 2^255, 2^256-1} through SHR/SHL/SAR/"
-             "DIV/MUL, nested packed idioms and mutated real contracts.",
+             "DIV/MUL, SIGNEXTEND with every boundary constant in either position, nested packed idioms and mutated real contracts.",
         note="Width is defined for every AbiType of known width.",
         technique="TLA+ layout well-formedness invariants; TLC trace validation",
         ref="DESIGN.md §4 C12"),
@@ -206,8 +213,8 @@ CHECKS = {
     "C18": dict(
         category="model_checking",
         text="Value.tla / ValueTrace.tla: Inv_C18_Accounting (the size a node reports equals the nodes it contains, for every "
-             "node of every value the VM produced and of its folded form) and Inv_C18_Limit (instruction results have at most "
-             " nodes) on programs that grow values (squaring, adding, hashing, shift-or loops; idiom and control-flow "
+             "node of every value the VM produced, of its folded form and of the form TypeChecker::lift leaves it in) and Inv_C18_Limit (instruction results have at most "
+             "value_size_limit nodes) on programs that grow values (squaring, adding, hashing, shift-or loops; idiom and control-flow "
              "programs) under limits 1..1000.",
         note="StorageWrite wrappers created when storage is exported are not instruction results; their operands are. "
              "Known finding: SLOAD builds its result outside the value builder.",
@@ -229,14 +236,16 @@ CHECKS = {
         text="Evm.tla is a concrete EVM for the fragment of the statement (PUSH0..32, DUP/SWAP1..16, POP, all ALU opcodes incl. "
              "ADDMOD/MULMOD/SIGNEXTEND/BYTE, PC, CODESIZE, word-aligned MSTORE/MLOAD, SLOAD/SSTORE, JUMP/JUMPI with forced "
              "decisions) written as a checker of a claimed execution over Word.tla. For every path the real VM explores on "
-             "generated stack-safe loop-free constant programs, the path is rebuilt from the hook events, a scratch "
+             "generated stack-safe loop-free constant programs (random block programs whose results are sunk into memory and "
+             "storage, and the operator grid: every ALU opcode x boundary operands of its roles, ~5100 cells, a third per quick run), the path is rebuilt from the hook events, a scratch "
              "interpreter's run along it is verified step by step by Evm!Step, every node of the final symbolic stack, memory "
              "words and storage generations is given a scratch value verified by Evm!NodeClaimOK (the operator over its operands "
              "in EVM order), and EvmTrace.tla checks Inv_C07_Stack, Inv_C07_Memory, Inv_C07_Storage (exactly this path's "
              "writes, in order, one entry per slot word) and Inv_C07_Path.",
         note="Four genuine shortfalls are known findings, recognised by what the path did (SIGNEXTEND, overflowing ADDMOD/MULMOD, "
-             "BYTE with an index >= 2^253, programs that address one slot through two key expressions); paths carrying such a tag "
-             "are excused only for the invariants named in the signature.",
+             "BYTE with an index >= 2^253, programs that address one slot through two key expressions); a disagreement is excused only "
+             "when every disagreeing item is computed from a node built at an instruction that ran into one of them (per-node taint), "
+             "and only for the invariants named in the signature.",
         technique="TLA+ concrete EVM as execution checker; per-path translation validation of the symbolic state by TLC trace validation",
         ref="DESIGN.md §4 C07"),
     "C01": dict(
